@@ -113,6 +113,8 @@ class AsyncSocket(base_socket.BaseSocket):
             body = (await environ['wsgi.input'].read(length)).decode('utf-8')
             p = payload.Payload(encoded_payload=body)
             for pkt in p.packets:
+                if self.closed:
+                    break
                 await self.receive(pkt)
 
     async def close(self, wait=True, abort=False, reason=None):
@@ -241,7 +243,7 @@ class AsyncSocket(base_socket.BaseSocket):
                 break
             except:
                 break
-            if p is None:
+            if p is None or self.closed:
                 # connection closed by client
                 break
             pkt = packet.Packet(encoded_packet=p)
